@@ -221,6 +221,6 @@ theorem ap_z1_y1 (D : Dec) (p : Pkt) (x : Bytes) (xs : List Bytes) (l : Bytes) (
   simp only [afterParse, if_true, hsz, if_false, hseq, ne_eq, not_true_eq_false, a, List.length_cons,
     List.length_append, List.length_nil, List.headD_cons, List.tail_cons, holdLast, Dec.resetFragments, hl, hd]
   have : ¬ (xs.length + (0 + 1) + 1 = 1 ∧ True) := by omega
-  simp [this]
+  simp
 
 end Rtsp.Codec.Av1
